@@ -66,7 +66,7 @@ def run(tier, seed):
     for name, src in LOOPS:
         for jit in (False, True):
             scen.append(({"id": f"loop-{name}{'-jit' if jit else ''}", "main": src.replace("@@", "-v"), "prelude": "",
-                          "irq": {"after_ms": 60}, "watchdog_ms": 4000}, jit))
+                          "irq": {"after_ms": 60}, "watchdog_ms": 6000}, jit))
     from concurrent.futures import ThreadPoolExecutor
     with ThreadPoolExecutor(max_workers=6) as ex:
         outs = list(ex.map(lambda a: (a[0], a[1]) + sp.record(a[0], work, jit=a[1]), scen))
